@@ -236,7 +236,9 @@ class ProvXMLSerializer(Serializer):
         # Remove all comments.
         for c in xml_doc.xpath("//comment()"):
             p = c.getparent()
-            p.remove(c)
+            if p is not None:
+                # (a comment before or after the root element has no parent)
+                p.remove(c)
 
         document = prov.model.ProvDocument()
         self.deserialize_subtree(xml_doc, document)
